@@ -204,6 +204,36 @@ func (p *ParametersLiteral) UnmarshalBinary(data []byte) (err error) {
 	return json.Unmarshal(data, p)
 }
 
+// UnmarshalJSON reads a JSON representation on the target ParametersLiteral struct.
+// The fields Xs and Xe are interfaces and are decoded with [ring.ParametersFromMap],
+// as for the scheme parameters literals.
+func (p *ParametersLiteral) UnmarshalJSON(b []byte) (err error) {
+	type literal ParametersLiteral // same fields, no methods
+	aux := struct {
+		*literal
+		Xs map[string]interface{}
+		Xe map[string]interface{}
+	}{literal: (*literal)(p)}
+
+	if err = json.Unmarshal(b, &aux); err != nil {
+		return err
+	}
+
+	if aux.Xs != nil {
+		if p.Xs, err = ring.ParametersFromMap(aux.Xs); err != nil {
+			return err
+		}
+	}
+
+	if aux.Xe != nil {
+		if p.Xe, err = ring.ParametersFromMap(aux.Xe); err != nil {
+			return err
+		}
+	}
+
+	return
+}
+
 // GetLogN returns the LogN field of the target [ParametersLiteral].
 // The default value DefaultLogN is returned if the field is nil.
 func (p ParametersLiteral) GetLogN() (LogN int) {
